@@ -59,10 +59,10 @@ def make_cases(ctx):
     rng = ctx.rng
     cases = []
     if ctx.quick:
-        plan = [(0, "tiny"), (1, "tiny"), (2, "small"), (3, "small"), (4, "small"), (5, "tiny"), (0, "small"),
+        plan = [(2, "tiny"), (0, "tiny"), (1, "tiny"), (2, "small"), (3, "small"), (4, "small"), (5, "tiny"), (0, "small"),
                 (1, "medium"), (3, "medium"), (2, "large"), (1, "huge"), (3, "repeat"), (0, "medium")]
     else:
-        plan = ([(e, s) for e in range(6) for s in ("tiny", "small", "small")] + [(e, "medium") for e in range(6)] * 2
+        plan = ([(e, s) for e in (2, 0, 1, 3, 4, 5) for s in ("tiny", "small", "small")] + [(e, "medium") for e in range(6)] * 2
                 + [(0, "large"), (2, "large"), (5, "large"), (0, "huge"), (4, "huge"), (2, "repeat"), (5, "repeat")])
     for earlier, size in plan:
         names = rng.sample(sl.NAMES, earlier) if earlier <= len(sl.NAMES) else [f"r{i}" for i in range(earlier)]
@@ -274,6 +274,15 @@ def run_case(ctx, ci, case, mism):
         else:
             for (idx, mode, content, others, ev), dg in zip(results, digests):
                 allowed[(idx, mode)] = dg
+            if not ctx.quick and len(run.new) <= 2500 and selected is None:
+                trace = "[" + "; ".join(coq_op(o) for o in ops) + "]"
+                fs0 = "(cr_mkfs [])" if run.old is None else f"(cr_mkfs [(1%N, {sl.coq_bytes(run.old)})])"
+                step = max(1, len(results) // 12)
+                for (idx, mode, content, others, ev), qy in list(zip(results, queries))[::step]:
+                    parts = qy.split()
+                    m = {"d": "Cr_Death", "i": "Cr_Interrupt"}.get(parts[1]) or f"(Cr_Partial {parts[2]}%nat)"
+                    res = "None" if content is None else f"Some {sl.coq_bytes(content)}"
+                    SHARD.append(f"cr_crash_at {m} {trace} {parts[0]}%nat {fs0} 1%N = {res}")
     if scheme == "unknown":
         mism.append(dict(rep_base, what="the recorded operations follow neither the in-place nor the temp+replace scheme "
                                         "(no theorem covers them)", trace_kinds=_compress([o[0] for o in ops]),
@@ -361,6 +370,41 @@ def _show(content):
     return {"length": len(content), "head": content[:200].decode("utf-8", "replace"), "tail": content[-100:].decode("utf-8", "replace")}
 
 
+# ---------------------------------------------------------------- in-Coq shard (thorough)
+SHARD = []
+
+
+def coq_op(op) -> str:
+    k = op[0]
+    if k == "ot":
+        return f"Cr_OpenTrunc {op[1]}%N {op[2]}%N"
+    if k == "om":
+        return f"Cr_OpenTmp {op[1]}%N {op[2]}%N"
+    if k == "w":
+        return f"Cr_Write {op[1]}%N {sl.coq_bytes(b''.join(op[2]))}"
+    if k == "sp":
+        return f"Cr_Spill {op[1]}%N {op[2]}%nat"
+    if k == "fl":
+        return f"Cr_Flush {op[1]}%N"
+    if k == "cl":
+        return f"Cr_Close {op[1]}%N"
+    if k == "rp":
+        return f"Cr_Replace {op[1]}%N {op[2]}%N"
+    raise ValueError(k)
+
+
+def coq_shard(ctx, limit=120):
+    """Crash.v evaluated inside Coq against the bytes the IMPLEMENTATION left behind (not against the driver):
+    cr_crash_at mode trace k fs 1 = Some <bytes found in data.json>."""
+    ex = SHARD[:limit]
+    ok, log, secs = sl.run_coq_shard(ctx, "C20", "Crash", ex)
+    ctx.coverage["in_coq_shard"] = {"examples": len(ex), "compiled": ok, "seconds": secs,
+                                    "what": "cr_crash_at (vm_compute inside Coq) = bytes of data.json after the injected fault"}
+    if not ok:
+        ctx.violation("in-Coq evaluation of Crash.v disagrees with the files the implementation left behind on the shard",
+                      {"log": log}, found_input=False)
+
+
 # ---------------------------------------------------------------- entry points
 def run(ctx, proof):
     mism = []
@@ -396,6 +440,8 @@ def run(ctx, proof):
         return (0 if v["found_input"] else 1, 0 if (lost and first_of_case) else 1, 0 if first_of_case else 1)
     ranks = [rank(v) for v in ctx.violations]
     ctx.violations[:] = [v for _, v in sorted(zip(ranks, ctx.violations), key=lambda t: t[0])]
+    if not ctx.quick:
+        coq_shard(ctx)
     ctx.coverage["exhaustive"] = False
     ctx.coverage["violating_fault_points"] = sum(1 for v in ctx.violations if v["found_input"])
 
